@@ -370,9 +370,12 @@ func (c *ServerConn) createSendMailBox(ctx context.Context,
 		// stream object is re-initialised by each connection, the
 		// ctx parameter is used initialise the stream. This enables
 		// the current connection to control the release of this stream
-		// and exit if needed.
-		writeStream, err := c.client.SendStream(ctx)
+		// and exit if needed. The stream outlives ctx for a moment
+		// so that the FIN of the connection still gets out.
+		streamCtx, cancelStream := lingeringStreamContext(ctx)
+		writeStream, err := c.client.SendStream(streamCtx)
 		if err != nil {
+			cancelStream()
 			c.log.Debugf("Unable to create send stream: %w", err)
 
 			continue
